@@ -21,7 +21,8 @@ P = "C14"
 
 
 class FakeSock:
-    def __init__(self, c, data, n_sym_chunks, eof_at=None):
+    def __init__(self, c, data, n_sym_chunks, eof_at=None, tag=""):
+        self.tag = tag
         self.c, self.data, self.pos, self.k, self.n_sym, self.eof_at = c, data, 0, 0, n_sym_chunks, eof_at
         self.sent = []
         self.reads = 0
@@ -41,9 +42,9 @@ class FakeSock:
         if self.k < self.n_sym and hi > 64:
             # long reads: the segment boundary is one of a listed set of positions (every position for reads of up to 64 bytes, i.e. everywhere in the header and in short replies)
             cands = sorted({1, 2, 7, 8, 9, 15, 16, 17, hi // 2, hi - 16, hi - 1, hi})
-            k = cands[c.concretize(c.int(f"chunk{self.k}_choice", 0, len(cands) - 1))]
+            k = cands[c.concretize(c.int(f"{self.tag}chunk{self.k}_choice", 0, len(cands) - 1))]
         elif self.k < self.n_sym and hi > 1:
-            k = c.int(f"chunk{self.k}", 1, hi)
+            k = c.int(f"{self.tag}chunk{self.k}", 1, hi)
             k = c.concretize(k)
         else:
             k = hi
@@ -231,3 +232,36 @@ def eof_async(c, kind, extra):
     client._auth, client._sign_header, client._reader, client._writer = None, False, FakeReader(data, eof_at=e, c=c), FakeWriter()
     c.call_async(client._send_pdu, _request_pdu(), cls)
     c.check(False, "async: a PDU was returned although the connection ended early")
+
+
+@harness(P, per_job=True, params=lambda tier: [dict(kind=k, extra=e) for k, e in ([("response", 8), ("bind_ack", 1)] if tier == "quick" else [("response", 8), ("response", 300), ("bind_ack", 1), ("alter_resp", 1)])],
+         raises=(ValueError,), max_steps=200000,
+         bounds="two SyncRpcClient objects in one process (two threads): while client A is blocked in a read between two segments of its reply (the solver chooses which read and the "
+         "segment sizes), client B performs a complete exchange on its own connection (its reply has different, symbolic payload octets); both must decode exactly their own reply",
+         outside="more than two clients; pre-emption at points other than blocking reads", must_reach=("two clients: each decodes its own reply",))
+def two_clients(c, kind, extra):
+    cls, data_a = _reply(c, kind, extra)
+    k = min(len(data_a) - 16, 6)
+    data_b = refs.cat(data_a[: len(data_a) - k], c.bytes("payload_b", k))
+    sock_b = FakeSock(c, data_b, 1, tag="b_")
+    client_b = rc.SyncRpcClient.__new__(rc.SyncRpcClient)
+    client_b._auth, client_b._sign_header, client_b._sock = None, False, sock_b
+    when = c.concretize(c.int("switch_at_read", 1, 3))
+    got_b = {}
+
+    class SockA(FakeSock):
+        def _take(self, limit):
+            if self.reads + 1 == when and "pdu" not in got_b:
+                got_b["pdu"] = None
+                got_b["pdu"] = c.call(client_b._send_pdu, _request_pdu(), cls)  # the other thread runs while this one waits for data
+            return FakeSock._take(self, limit)
+
+    sock_a = SockA(c, data_a, 2)
+    client_a = rc.SyncRpcClient.__new__(rc.SyncRpcClient)
+    client_a._auth, client_a._sign_header, client_a._sock = None, False, sock_a
+    want_a, want_b = _expect(c, data_a), _expect(c, data_b)
+    got_a = c.call(client_a._send_pdu, _request_pdu(), cls)
+    if got_b.get("pdu") is None:  # A finished in fewer reads than `when`: B runs afterwards
+        got_b["pdu"] = c.call(client_b._send_pdu, _request_pdu(), cls)
+    c.check(all_of([struct_eq(got_a, want_a), struct_eq(got_b["pdu"], want_b)]), "two clients: each decodes its own reply")
+    return True
